@@ -2,7 +2,7 @@
    Only statements here; proofs live in Proofs/C01_*.v and Proofs/Grid_real.v.
    Model: Model/Grid.v (affine kernels) + Model/C01_Area.v (accessors), instantiated with the reals (RO).
    wf_area a  :=  1 <= width, 1 <= height, xmin <> xmax, ymin <> ymax   (flipped areas, ymin > ymax, are included). *)
-From Coq Require Import Reals ZArith List Lia Lra Bool.
+From Coq Require Import Reals ZArith List Lia Lra Bool PrimFloat.
 From PR Require Import Base.Num Base.RNum Base.F64 Model.Grid Model.C01_Area Gen.GenC01
      Proofs.Grid_real Proofs.C01_grid Proofs.C01_index Proofs.C01_lonlat Proofs.C01_gen.
 Import ListNotations.
